@@ -18,6 +18,7 @@ def files():
     F.append(("grid-comment", "# grid 2x3\np edge 6 7\ne 1 2 1\ne 2 3 1\nc middle\ne 4 5 1\ne 5 6 1\ne 1 4 2\ne 2 5 2\ne 3 6 2\n", 12, None))
     F.append(("forest", "p edge 5 3\ne 1 2 3\ne 2 3 1\na 4 5 2\n", 0, None))
     F.append(("two-comp-last-weight-55", "p edge 7 7\ne 1 2 10\ne 2 3 10\ne 3 1 10\ne 4 5 20\ne 5 6 20\ne 6 7 30\ne 7 4 55", 30 + 125, None))
+    F.append(("tri-isolated", "c fewer edges than vertices, yet not a forest\np edge 6 3\ne 1 2 2\ne 2 3 2\ne 3 1 3\n", 7, None))
     F.append(("bad-loop", "p edge 3 3\ne 1 2 1\ne 2 2 1\ne 2 3 1\n", None, "self-loop"))
     F.append(("bad-multi", "p edge 3 4\ne 1 2 1\ne 2 3 1\ne 3 1 1\ne 2 1 5\n", None, "parallel edge"))
     F.append(("bad-zero", "p edge 3 3\ne 1 2 1\ne 2 3 0\ne 3 1 1\n", None, "zero weight"))
@@ -158,7 +159,7 @@ def run_all(want_mpi=True, only_cores=False):
         results.extend(ex.map(one, mpi))
     res = dict(driver="demos", evaluations=len(results), distinct_nontrivial=0, samples=[], violations=[], status="ok",
                counts={}, exhaustive=True, functions={}, assumptions=[], entry_points=[],
-               rule="enumerated DIMACS files (5 valid with known optimum incl. one without final newline and one forest; 5 invalid: self-loop, parallel edge, zero, negative, several) x every algorithm/parallel/verbose/cores combination of mcb-dimacs, approx-mcb-dimacs (k=2,3), collection-stats-dimacs, and mcb-dimacs-mpi under mpiexec -n 1..3(4) with a 90 s watchdog; distinct = distinct command lines",
+               rule="enumerated DIMACS files (6 valid with known optimum incl. one without final newline, one forest and one disconnected graph with fewer edges than vertices that is not a forest; 5 invalid: self-loop, parallel edge, zero, negative, several) x every algorithm/parallel/verbose/cores combination of mcb-dimacs, approx-mcb-dimacs (k=2,3), collection-stats-dimacs, and mcb-dimacs-mpi under mpiexec -n 1..3(4) with a 90 s watchdog; distinct = distinct command lines",
                bounds="files=10")
     seen = set()
     cores_checked = 0
